@@ -8,7 +8,7 @@ HERE = os.path.dirname(os.path.dirname(os.path.abspath(__file__)))
 TRUST = ('Trusted base: CPython semantics of the primitives named in the rule tables (ast/operator/host library behaviour), '
          'schema_markdown implementing the documented struct/union/enum/optional semantics, and the recognisers of the '
          'checker itself (tested both ways by ./selftest). The check reads /repo source text only; nothing from the '
-         'repository is imported or executed.')
+         'repository is imported or run under CPython (where noted, repository functions are evaluated by the checker\'s own abstract interpreter over abstract inputs).')
 
 # id -> (technique, level text, design ref, extra level note)
 CHECKS = {
@@ -18,47 +18,32 @@ CHECKS = {
             'functions, several functions) have the control flow of the structured reading, and that ill-nested programs are rejected; extends to all depths by '
             'the stack-discipline argument. Does not execute programs or examine values; runtime jump semantics are C08.',
             'DESIGN.md 4/C01', 'Known finding: continue inside while bypasses the loop test (known_findings.json).'),
-    'C03': ('table read-back of the evaluator: symbolic evaluation of the operator dispatch ladder over 13x13 host type atoms per operator, compared with the '
-            'language definition; syntactic/ordering rules for short circuit, evaluation order, if(), aliases',
-            'Decides operator dispatch/guard/operand-order structure ("unsupported operand types yield null", bool is not a number, string/datetime overloads, '
-            'short-circuit returns the operand value by value_boolean, each operand evaluated once left to right, if() lazy, aliases resolve to the same library '
-            'functions). Numerical results are not decided.',
-            'DESIGN.md 4/C03', ''),
-    'C04': ('abstract case analysis of the assignment target (locals None / empty / non-empty), who-writes-globals enumeration, lookup-order rules, '
-            'parameter-binding decision table read off _script_function, callback call-site rules',
-            'Decides the per-site scoping and calling-convention rules (assignment scope, fresh frames, lookup order, non-overwriting library injection by membership, '
-            'function statement replaces, binding table incl. "..." and missing/surplus arguments, callbacks keep options and get fresh argument lists).',
-            'DESIGN.md 4/C04', ''),
-    'C05': ('exception-escape (effect) analysis over the resolved call graph from execute_script/evaluate_expression with a frozen CPython raising-primitive table; '
-            'handler-structure rules for the function-call wrapper',
-            'Decides "no path from a raising primitive to the API boundary without a handler" for everything outside the library-call wrapper, and the wrapper\'s '
-            'handler order/behaviour. Causes of failures inside library functions are contained wholesale by the wrapper and not enumerated.',
-            'DESIGN.md 4/C05', ''),
+    'C03': ('symbolic evaluation of the operator dispatch ladder over 13x13 host type atoms per operator (table read-back); E6e: abstract interpretation of evaluate_expression over expression models with opaque host functions: lookup order, laziness of && || if(), argument order, every operand evaluated exactly once, operator coverage of the schema enum, relational operators as sign tests of value_compare; alias table',
+            'Decides the operator/type action table ("unsupported operand types yield null", bool is not a number, string/datetime overloads), short circuit by value_boolean returning the operand, if() laziness, operands and arguments evaluated exactly once left to right (also when the left value already decides), every enum operator implemented, aliases resolve to the same library functions. Numerical results are the host\'s. The abstract interpreter (sa/absint.py) evaluates the AST of the repository functions itself over abstract inputs; nothing is imported or run under CPython.',
+            'DESIGN.md 12/C03 (as built) and 4/C03 (plan)', ''),
+    'C04': ('E6s/E6e: abstract execution of the assignment statement (3 scope cases), of the function statement and of the value it binds applied to argument lists of every length (binding table, fresh frames, own statement list, caller options), abstract evaluation of variable / function lookup (151 scenarios); who-writes-globals enumeration, library-injection membership rule, callback call-site rules, shared C10.A (parameter split)',
+            'Decides assignment scope, fresh locals per call, lookup order (keywords, locals by membership, globals, built-ins under the flag), non-overwriting library injection, unconditional function binding/redefinition, the parameter binding table incl. "..." / missing / surplus arguments and explicit lastArgArray False, callbacks keep options and get fresh argument lists. The abstract interpreter (sa/absint.py) evaluates the AST of the repository functions itself over abstract inputs; nothing is imported or run under CPython.',
+            'DESIGN.md 12/C04 (as built) and 4/C04 (plan)', ''),
+    'C05': ('exception-escape (effect) analysis over the resolved call graph from execute_script/evaluate_expression with a frozen CPython raising-primitive table; E6e abstract evaluation of the function-call wrapper (host function returns / raises ValueArgsError, TypeError, BareScriptRuntimeError, BareScriptParserError x debug/logFn configurations); provenance-based classification of dynamic calls; string-key rule for library-made objects',
+            'Decides "no path from a raising primitive to the API boundary without a handler" outside the library-call wrapper, and the wrapper\'s outcomes (failure value / null / propagate runtime error, logging exactly under debug+logFn). Causes of failures inside library functions are contained wholesale by the wrapper and not enumerated; values are assumed acyclic. The abstract interpreter (sa/absint.py) evaluates the AST of the repository functions itself over abstract inputs; nothing is imported or run under CPython.',
+            'DESIGN.md 12/C05 (as built) and 4/C05 (plan)', ''),
     'C07': ('E6 template extraction + schema-text validation (E5) of every emitted abstract model, per-scope label/jump multiset rules, monotone-counter rule, '
             'reader/writer key-path agreement',
             'Decides schema validity and label uniqueness/target/coverage of everything the parser emits for all shapes to the depth bound (and all programs via the '
             'monotone counter + stack discipline), and that runtime/lint read only schema paths.',
             'DESIGN.md 4/C07', ''),
-    'C08': ('CFG dominance/path rules on the statement loop (program counter), recognisers for label search/cache/conditional jump/return, effect analysis of '
-            'model-derived objects (immutability), schema-vs-dispatch exhaustiveness',
-            'Decides the statement-loop discipline (statements in order, first label of that name in the same list, unknown label error, per-invocation cache, '
-            'return, value_boolean truthiness), model immutability in runtime.py/model.py and the argument-list protocol. Exhaustive execution of small models is not attempted.',
-            'DESIGN.md 4/C08', ''),
-    'C09': ('CFG dominance of increment and limit test, finite-abstraction evaluation of the abort condition, package-wide who-writes/who-reads of the counter and '
-            'limit keys, options-object identity flow with copy/write-back (finally) recognition',
-            'Decides exactness (increment by 1 and test before every dispatch; abort iff limit>0 and count>limit), completeness (every statement-executing call shares '
-            'the counter or writes it back in a finally) and monotonicity (nothing else reads the limit).',
-            'DESIGN.md 4/C09', ''),
-    'C11': ('symbolic evaluation of value_type/value_compare ladders over 13 host type atoms (169 pairs), three-way form evaluation over the 3 orderings, '
-            'container-branch recognisers, consumer call-site rules',
-            'Decides the type partition, null-first, antisymmetry-by-construction of every scalar branch, element-wise container comparison, sign tests of the six '
-            'relational operators and the comparison usage of sort/indexOf/min/max/dataSort. Transitivity inside one host type is the host\'s.',
-            'DESIGN.md 4/C11', ''),
-    'C02': ('constant-folded precedence table compared with the ladder (196 entries), operator-set agreement of four tables, ordered-alternation rule, shape recogniser of the '
-            'right-spine re-ordering loop, operand-branch order by regex classification, suffix lattice for remainders and error texts',
-            'Decides the table and the shape of the re-ordering algorithm (which together give precedence and left associativity for every chain by the spine invariant), '
-            'operand dispatch order, unary nesting, rejection of trailing text / unmatched parentheses, identifier agreement. The 14^k enumeration of chains is execution-based and not attempted.',
-            'DESIGN.md 4/C02', ''),
+    'C08': ('E6s: abstract interpretation of _execute_script_helper over every statement list of length <= 4 (5 thorough) over {label A/B, jump A/B, jumpif, expr, assignment, return, return expr} in global and function scope with opaque expressions and 4 truth schedules, compared with the documented semantics (31028 runs quick); CFG path rule for the program counter, cache-origin rule, schema-vs-dispatch exhaustiveness, model immutability effect analysis, E6e argument-list scenarios; shared C09.D/W, C04.R/F',
+            'Decides the statement-loop semantics on all small jump-level models (order, first label of that name in the current list incl. index 0 and backward, unknown label error, jump iff no expr or value_boolean, return, assignments, statement count), cache locality, model immutability in runtime.py/model.py and the argument-list protocol. Longer lists than the bound rely on the program-counter CFG rule. The abstract interpreter (sa/absint.py) evaluates the AST of the repository functions itself over abstract inputs; nothing is imported or run under CPython.',
+            'DESIGN.md 12/C08 (as built) and 4/C08 (plan)', ''),
+    'C09': ('symbolic per-iteration evaluation of the loop prefix (counter = start + 1 from a read made in this iteration; cached counts reported), finite-abstraction evaluation of the (possibly nested) abort condition over 6 cases, package-wide who-writes/who-reads of the counter and limit keys, options-object identity flow with copy/write-back (finally) recognition incl. helper-returned copies, no-swallow rule over the call-graph closure of statement-executing callees',
+            'Decides exactness (increment by 1 and test before every dispatch; abort iff limit>0 and count>limit), completeness (every statement-executing call shares the counter or writes it back in a finally; no handler absorbs the limit error) and monotonicity (nothing else reads the limit).',
+            'DESIGN.md 12/C09 (as built) and 4/C09 (plan)', ''),
+    'C11': ('symbolic evaluation of value_type/value_compare ladders over 13 host type atoms (169 pairs), three-way form evaluation, container-branch recognisers; E6e relational scenarios (6 operators x 3 signs x 3 type pairs); E6l abstract execution of mathMax/mathMin (argument lists <= 3 over null < a < b < c) and of the dataSort comparator (512 cases) with host ordering/equality of opaque values reported; sort call-site rules',
+            "Decides the type partition, null-first, antisymmetry-by-construction of every scalar branch, element-wise container comparison, sign tests of the six relational operators and that sort/indexOf/min/max/dataSort order and match by value_compare only. Transitivity inside one host type is the host's. The abstract interpreter (sa/absint.py) evaluates the AST of the repository functions itself over abstract inputs; nothing is imported or run under CPython.",
+            'DESIGN.md 12/C11 (as built) and 4/C11 (plan)', ''),
+    'C02': ('constant-folded precedence table vs the ladder (196 entries), operator-set agreement (tokeniser regex language / table / schema / evaluator coverage), priority order of the operator alternation; E6x: abstract interpretation of parse_expression and its helpers over abstract token streams (regex matches are oracles decided from the pattern) compared with a precedence-climbing reference: all operator chains of length <= 4 (41370), operand forms in operator contexts, stacked prefix operators, 26 ill-formed sequences, error-text alignment',
+            'Decides the tree the expression parser builds for every operator chain of up to 4 operators (5 one-per-rung in the thorough tier), every operand form in operator context, nested prefix operators, rejection of ill-formed token sequences with BareScriptParserError and the alignment of error texts/columns - independent of how the code is spelled. Lexical details inside a token (digits, escapes) are C13/C06. The abstract interpreter (sa/absint.py) evaluates the AST of the repository functions itself over abstract inputs; nothing is imported or run under CPython.',
+            'DESIGN.md 12/C02 (as built) and 4/C02 (plan)', ''),
     'C06': ('E6 scenario analysis of parse_script (failing sub-expression oracle, continuation lines, error shapes) with linear normal forms of the reported column validated '
             'against regex group positions; exception-escape sweep; automata inclusion of the number regex in float(); algebraic caret identity per elision branch',
             'Decides: every sub-expression syntax error is re-raised with full line, line number start+index and a column equal to group offset + inner column; errors of ill-formed shapes '
@@ -69,51 +54,37 @@ CHECKS = {
             'Decides blank tolerance of every statement and token regex, one CRLF/LF splitter for both input forms, continuation detection and join, comment/blank-line invariance of the '
             'emitted model for all shapes to depth 2, and statelessness of the parser. Full metamorphic equality over all programs x rewrites is execution-based.',
             'DESIGN.md 4/C10', ''),
-    'C13': ('type-atom evaluation of value_string, shape rule + automata for the clean-up regex, automata inclusion printed-number language in literal regex, dominance rules for the parsers',
-            'Decides what the repository adds around CPython\'s repr/float round trip: dispatch order, the clean-up can only delete an all-zero fraction at the end, printed numbers are '
-            'literals, parsers map non-finite / non-numeric text to null. Round-tripping over all doubles is the trusted base.',
-            'DESIGN.md 4/C13', ''),
+    'C13': ('type-atom evaluation of value_string, shape rule + automata for the clean-up regex, automata inclusion printed-number language in literal regex, abstract execution of value_parse_number / value_parse_integer (float()/int() oracles: finite, NaN, infinity, ValueError), E6x conversion of every literal flavour',
+            "Decides what the repository adds around CPython's repr/float round trip: dispatch order, the clean-up can only delete an all-zero fraction at the end, printed numbers are accepted literals converted by float(), parsers map non-finite / non-numeric text to null. Round-tripping over all doubles is the trusted base. The abstract interpreter (sa/absint.py) evaluates the AST of the repository functions itself over abstract inputs; nothing is imported or run under CPython.",
+            'DESIGN.md 12/C13 (as built) and 4/C13 (plan)', ''),
     'C14': ('encoder-configuration rules, automata equivalence of the string-token alternative with the JSON string-token language, follow-set rule for the number clean-up, '
             'key-serialisation sites',
             'Decides that post-processing of encoder output cannot alter string tokens and strips the fraction of integral numbers in every structural position, that every encoder '
             'sorts keys / rejects NaN, and that jsonParse does not pre-process text. jsonParse(jsonStringify(v)) == v then rests on the host json contract.',
             'DESIGN.md 4/C14', ''),
-    'C15': ('per-function sibling rules over the whole registry: failure-value agreement, CFG validate-before-mutate, bounds facts at index sinks, aliasing contract, type-atom evaluation '
-            'of the argument type test, thin-wrapper table, default idiom',
-            'Decides the per-function disciplines whose violation is how sequence/map/string contracts break (documented failure values, arguments unchanged on failure, bounds, fresh vs same '
-            'container, type strictness, host-operation wrappers). Reference-model equality over call histories is execution-based and not decided.',
-            'DESIGN.md 4/C15', ''),
+    'C15': ('E6l: abstract execution of the 10 index-taking array/string functions (through value_args_validate) on sequences of length 0-5 with indices -2..5 as int and float, non-integral, null, wrong-typed, boolean, missing, compared with the reference list/str model (2926 runs); per-function sibling rules over the registry: failure-value agreement, CFG validate-before-mutate, aliasing contract, type-atom evaluation of the argument type test, thin-wrapper table, default idiom; shared C11.U',
+            'Decides results, failure values, effects and argument preservation of the index-taking functions on all small cases, and the per-function disciplines (documented failure values, validate before mutate, fresh vs same container, type strictness, host-operation wrappers). Reference-model equality over long call histories is not decided. The abstract interpreter (sa/absint.py) evaluates the AST of the repository functions itself over abstract inputs; nothing is imported or run under CPython.',
+            'DESIGN.md 12/C15 (as built) and 4/C15 (plan)', ''),
     'C16': ('shape recogniser for carry blocks bound to argument-model positions (unit table), day-loop step rules, getter sibling table, normalisation branches, formatter/parser facts with '
             'automata inclusion over all digits, effect analysis of the ISO parser',
             'Decides unit tables, carry order, month-length recomputation, getter/attribute agreement, formatter <-> parser symmetry (local zone, millisecond truncation, language inclusion) and '
             'totality of the ISO parser. Everything quantified over time zones / calendar correctness for all component values is NOT decided.',
             'DESIGN.md 4/C16', ''),
-    'C17': ('dataflow of the resolved-location variable through the include branch, who-writes urlFn, ordered-step and handler-scope rules, E6 include scenarios, case table of url_file_relative, CLI wiring',
-            'Decides resolution against the including file (compositional step), isolation of the re-based urlFn, fetch/parse/lint/execute order once per include, global scope, failure '
-            'reporting naming the resolved location, include merging/system flag in the parser, url_file_relative cases, CLI loader.',
-            'DESIGN.md 4/C17', ''),
-    'C18': ('effect analysis (model immutability), schema path typing with guard recognition for optional members, traversal-exhaustiveness against schema expression positions, '
-            'label-table scoping rules, warning-loop order rule',
-            'Decides purity, never-raises on schema-valid models (optional members guarded), completeness of use collection and pointless test, per-scope label tables matching the runtime '
-            'search scope, deterministic warning order. Behaviour preservation of acting on a warning needs an execution oracle.',
-            'DESIGN.md 4/C18', ''),
-    'C19': ('recognisers for join name-map stores / renaming-loop condition / row construction / key functions, filter and field loops, aggregate dispatch vs schema enum and reducer table, '
-            'sort/top sites, CSV inference tests; shared C12/C16/C09 clauses',
-            'Decides structural necessary conditions of the relational meaning (join never overwrites a left field, same key function, filter by value_boolean in order, aggregate table, '
-            'partition by serialised key, top n, CSV inference by is-None tests). Relational meaning over all tables is execution-based.',
-            'DESIGN.md 4/C19', ''),
-    'C20': ('independent BareScript front-end (E9) over the shipped .bare sources: well-formedness, lint-equivalent facts, call resolution / arity / definitely-null arguments against the library '
-            'argument models, two-point side taint and push/guard rules inside diffLines; shared C15.H/C11.F clauses',
-            'Decides that every shipped script parses and is lint-clean (re-derived), and for diffLines: every block is pushed onto the returned array, Remove/Add/Identical blocks are built from '
-            'the right side(s), pushes are guarded against empty line lists, no undefined name is passed where the call would always fail. Reconstruction for all input pairs needs execution.',
-            'DESIGN.md 4/C20', ''),
-    'C12': ('forward may-taint dataflow (per-function CFG, inter-procedural by parameter binding) from maybe-float numbers '
-            'to integer-only operand positions; type-test lint; literal-constructor rule',
-            'Decides the structural clause of C12: every index/count/size/radix/digit-count position that a float-spelled '
-            'integral number can reach is coerced (all ~105 library functions and their data.py/value.py callees, every run), '
-            'the integrality constraint is tested by value, and nothing discriminates int from float by type. It does not '
-            'decide equality of results for all inputs (value-dependent).',
-            'DESIGN.md 4/C12', ''),
+    'C17': ('E6s: abstract execution of the include statement with oracles for fetchFn / urlFn / logFn / parse_script / lint_script / url_file_relative over 20 scenarios (resolution table, nesting to 3 levels, fetch and syntax failures at depth, lint under debug, statement limit inside an include) + include inside a function; who-writes urlFn; E6 parser-side scenarios; three-valued case table of url_file_relative; CLI wiring',
+            'Decides resolution against the including file at every level, isolation of the re-based urlFn, fetch/parse/lint/execute order once per include, global scope, statement accounting, failure reporting naming the failing file only, include merging/system flag in the parser, url_file_relative cases (recognised forms), CLI loader. The abstract interpreter (sa/absint.py) evaluates the AST of the repository functions itself over abstract inputs; nothing is imported or run under CPython.',
+            'DESIGN.md 12/C17 (as built) and 4/C17 (plan)', ''),
+    'C18': ('effect analysis (model immutability), schema path typing with guard recognition for optional members + truthiness rule, abstract execution of the use collector / statement walker / pointless test over all expression models of depth <= 2, label-table scoping rules, warning-loop order rule; shared C08.E/L (what a jump does at run time)',
+            'Decides purity, never-raises on schema-valid models (optional members guarded), exact use collection and pointless test, per-scope label tables matching the runtime search scope, deterministic warning order. Behaviour preservation of acting on a warning needs an execution oracle. The abstract interpreter (sa/absint.py) evaluates the AST of the repository functions itself over abstract inputs; nothing is imported or run under CPython.',
+            'DESIGN.md 12/C18 (as built) and 4/C18 (plan)', ''),
+    'C19': ('E6l: abstract execution of top_data, aggregate_data and join_data over 5 tables each (duplicate / null / missing / mixed-type / look-alike keys; counts as int and float; six reducers; colliding field names a, a2, a3) compared with the relational meaning (334 runs); filter / calculated-field loops, sort site, CSV inference tests; shared C12/C16/C09 clauses',
+            'Decides dataTop, dataAggregate and dataJoin on all small tables of the scenario set (partition by serialised key, first-appearance order, non-null reducers, collision renaming that never overwrites a left field), filter by value_boolean in order, calculated field on every row, CSV inference by is-None tests. CSV text round trip rests on the host csv module. The abstract interpreter (sa/absint.py) evaluates the AST of the repository functions itself over abstract inputs; nothing is imported or run under CPython.',
+            'DESIGN.md 12/C19 (as built) and 4/C19 (plan)', ''),
+    'C20': ('independent BareScript front-end (E9) over the shipped .bare sources: well-formedness, lint-equivalent facts, call resolution / arity / definitely-null arguments against the library argument models, evidence-based side assignment (left / right / shared offsets) with access and block rules inside diffLines; shared C15.H/C11.F/C08.L/C08.E clauses',
+            "Decides that every shipped script parses and is lint-clean (re-derived), and for diffLines: every block is pushed onto the returned array, element accesses of one side use only that side's cursors (or shared offsets), Remove/Add blocks come from the right side, pushes are guarded against empty ranges (three-valued). Reconstruction for all input pairs needs execution and is not decided.",
+            'DESIGN.md 12/C20 (as built) and 4/C20 (plan)', ''),
+    'C12': ('forward may-taint dataflow (per-function CFG with None-refinement, inter-procedural by parameter binding) from maybe-float numbers to integer-only operand positions; type-test lint; E6l abstract execution of the 10 index-taking array/string functions with every number spelled as int and as float (2926 runs); E6x number-literal conversion',
+            'Decides that every index/count/size/radix/digit-count position a float-spelled integral number can reach is coerced, that the index-taking functions give identical results for both spellings on all small cases, that integrality is tested by value and literals are always floats. Equality of results for all inputs of all functions is value-dependent and not decided. The abstract interpreter (sa/absint.py) evaluates the AST of the repository functions itself over abstract inputs; nothing is imported or run under CPython.',
+            'DESIGN.md 12/C12 (as built) and 4/C12 (plan)', ''),
 }
 
 NOT_YET = {}
@@ -155,8 +126,10 @@ def main():
             'path': 'sa/',
             'serves_properties': [c['property_id'] for c in checks],
             'kind_free_text': 'repository-specific static analysers over Python ast (loader with literal tables, statement CFG, '
-                              'dataflow, call-graph binding, regex-AST and schema-text readers, abstract interpretation of the '
-                              'parser lowering templates, independent BareScript front-end); stdlib only',
+                              'dataflow, call-graph binding, regex-AST and schema-text readers, an abstract interpreter for the Python subset the '
+                              'repository uses - applied to the parser, the expression parser, the statement loop, the evaluator and selected library / data '
+                              'functions over abstract inputs with oracles for regex matches, host callbacks and opaque values - and an independent '
+                              'BareScript front-end); stdlib only',
         }],
         'checks': checks,
         'not_applicable': not_applicable,
